@@ -14,6 +14,7 @@ import stage_gen
 import stage_layout
 import stage_meta
 import stage_names
+import stage_pipe
 import stage_types
 
 LEAN = Path(__file__).resolve().parent.parent / "lean"
@@ -45,7 +46,7 @@ def spec(prop: str, stages, extra_modules=(), extra_theorems=(), only=None):
 T = "StubGen.Theorems.Tables"
 
 PROPS = {
-    "C01": spec("C01", [stage_gen.run, stage_ana.run, stage_e2e.run]),
+    "C01": spec("C01", [stage_gen.run, stage_ana.run, stage_e2e.run, stage_pipe.run]),
     "C03": spec("C03", [stage_gen.run, stage_ana.run, stage_e2e.run]),
     "C04": spec("C04", [stage_gen.run, stage_ana.run, stage_e2e.run]),
     "C17": spec("C17", [stage_gen.run, stage_e2e.run]),
@@ -54,15 +55,15 @@ PROPS = {
     "C05": spec("C05", [stage_gen.run, stage_ana.run, stage_e2e.run], [T], ["StubGen.Tables.builtin_names"]),
     "C06": spec("C06", [stage_gen.run, stage_ana.run, stage_e2e.run]),
     "C07": spec("C07", [stage_gen.run, stage_ana.run, stage_e2e.run]),
-    "C08": spec("C08", [stage_det.run, stage_disc.run, stage_ana.run, stage_gen.run]),
+    "C08": spec("C08", [stage_det.run, stage_disc.run, stage_ana.run, stage_gen.run, stage_pipe.run]),
     "C09": spec("C09", [stage_names.run, stage_gen.run, stage_e2e.run], [T], ["StubGen.Tables.name_annotation_form"]),
-    "C10": spec("C10", [stage_gen.run, stage_e2e.run, stage_layout.run]),
+    "C10": spec("C10", [stage_gen.run, stage_e2e.run, stage_layout.run, stage_pipe.run]),
     "C11": spec("C11", [stage_gen.run, stage_e2e.run]),
     "C18": spec("C18", [stage_meta.run, stage_gen.run]),
-    "C12": spec("C12", [stage_ana.run, stage_e2e.run]),
+    "C12": spec("C12", [stage_ana.run, stage_e2e.run, stage_pipe.run]),
     "C13": spec("C13", [stage_doc.run, stage_gen.run, stage_e2e.run]),
     "C14": spec("C14", [stage_ana.run, stage_e2e.run]),
-    "C15": spec("C15", [stage_disc.run], [T], ["StubGen.Tables.excluded_dirs"]),
+    "C15": spec("C15", [stage_disc.run, stage_pipe.run], [T], ["StubGen.Tables.excluded_dirs"]),
     "C16": spec("C16", [stage_gen.run, stage_e2e.run]),
     "C19": spec("C19", [stage_types.run], [T], ["StubGen.Tables.type_kinds"]),
     "C20": spec("C20", [stage_gen.run, stage_e2e.run], [T],
